@@ -289,3 +289,11 @@ extend("C09", "", "defaults inside allOf / anyOf branches; a defaulted property'
 extend("C18", "B-EOF", "every successful return after json.Decoder.Decode is dominated by an end-of-input test on the decoder (fixed bcc2aff: trailing data accepted).")
 for _pid in ("C02", "C03", "C04", "C05", "C06", "C07", "C08", "C09", "C10", "C11", "C14", "C15", "C17", "C18", "C19"):
     extend(_pid, "", "one family member in four (all in the thorough tier) is also run without --extra-imports, the CLI's default mode.")
+# ---- round 7 additions
+extend("C13", "", "A-LEGACY other-field clause: the two spellings never leave different models in a field that is not the keyword's own.")
+extend("C09", "", "the keys of a map-typed object default are the schema's keys verbatim.")
+extend("C16", "A-INDENT", "every top-level declaration of the raw emitted text starts in column 1: no declaration leaves the emitter's indentation raised (comment wrapping does not depend on what was emitted before).")
+extend("C01", "A-INDENT", "no declaration leaves the emitter's indentation raised.")
+extend("C03", "", "maps whose typed value schema also carries a not keyword keep the typed value; compositions of nullable-object branches stay structs.")
+extend("C11", "", "compositions of nullable-object branches.")
+extend("C02", "", "a declared array type does not measure its inner arrays against the outer limits.")
